@@ -134,3 +134,32 @@ def detachment_identity(w):
                 if not (e is None or isinstance(e, (str, int, float, bool, type(freephil.Auto), freephil.tokenizer.word))):
                     return "an extracted list holds a mutable %s" % type(e).__name__
     return None if n_handed == 0 else ("handed_out", n_handed)
+
+
+def fetch_case(mt, srcs, req):
+    """identity-graph comparison of `master.fetch(sources=…)` with Phil.Heap.fetchH (Phil/HeapFetch2.lean): the graph
+    of master + sources before, then the new objects reachable from the result (numbered after the old ones in visit
+    order), the result's id, and which OLD objects got `tmp = True`.  `req` = the ["fetch", …] request of the same
+    texts (its eval / format tables are reused).  Returns (request, implementation answer, failure or None)"""
+    from common import call_j
+    m = freephil.parse(input_string=mt)
+    ss = [freephil.parse(input_string=s) for s in srcs]
+    objs, index = walk([m] + ss)
+    before = graph(objs, index)
+    tmp0 = [getattr(o, "tmp", None) for o in objs]
+    n0 = len(objs)
+    state = {}
+
+    def f():
+        r = m.fetch(sources=ss)
+        state["r"] = r
+        objs2, index2 = walk([r], list(objs), dict(index))
+        marks = [i for i in range(n0) if getattr(objs[i], "tmp", None) is True and tmp0[i] is not True]
+        new_marks = sum(1 for o in objs2[n0:] if getattr(o, "tmp", None) is True)
+        return [graph(objs2, index2), index2[id(r)], marks, new_marks, n0]
+    impl = call_j(f)
+    fail = None
+    if graph(objs, index) != before:
+        fail = "fetch changed the identity graph of the master or of a source"
+    hreq = ["heap_fetch", req[1], req[2], req[4], req[5]]
+    return hreq, impl, fail
